@@ -38,6 +38,20 @@ class _Raise(Exception):
         self.what = what
 
 
+def assume(*facts: T.Term):
+    """decide-callback that takes the given boolean terms as true (and their negations as false)"""
+    pos = set(facts)
+    neg = {T.not_(f) for f in facts}
+
+    def decide(c):
+        if c in pos:
+            return True
+        if c in neg:
+            return False
+        return None
+    return decide
+
+
 class PathLimit(AnalysisError):
     pass
 
@@ -608,28 +622,34 @@ class Interp:
         return T.ite(c, to_term(a), to_term(b))
 
     def ex_BoolOp(self, e):
-        vals = [self.eval(x) for x in e.values]
-        ts = [self.truth(v) for v in vals]
-        if isinstance(e.op, ast.And):
-            # python value semantics for concrete operands
-            if all(T.is_const(t) for t in ts[:-1]):
-                for v, t in zip(vals, ts):
-                    if not t[1] if T.is_const(t) else False:
-                        return v
-                return vals[-1]
-            return T.and_(*ts)
-        if all(T.is_const(t) for t in ts[:-1]):
-            for v, t in zip(vals[:-1], ts[:-1]):
-                if t[1]:
+        is_and = isinstance(e.op, ast.And)
+        boolish = all(isinstance(x, (ast.Compare, ast.BoolOp)) or (isinstance(x, ast.UnaryOp) and isinstance(x.op, ast.Not)) for x in e.values)
+        if boolish:
+            ts = []
+            for x in e.values:
+                t = self.truth(self.eval(x))
+                if T.is_const(t):
+                    if bool(t[1]) != is_and:      # short circuit: False in an `and`, True in an `or`
+                        ts.append(t)
+                        break
+                    continue
+                ts.append(t)
+            return (T.and_ if is_and else T.or_)(*ts) if ts else (is_and)
+        # value semantics (`x or default`, `a and a.b`): lazy, left to right
+        last = None
+        for i, x in enumerate(e.values):
+            v = self.eval(x)
+            last = v
+            if i == len(e.values) - 1:
+                return v
+            t = self.truth(v)
+            if T.is_const(t):
+                if bool(t[1]) != is_and:
                     return v
-            return vals[-1]
-        if any(isinstance(v, (Frame, Obj)) for v in vals):
-            # `x or default`
-            for v, t in zip(vals[:-1], ts[:-1]):
-                if self.decide(t, e):
-                    return v
-            return vals[-1]
-        return T.or_(*ts)
+                continue
+            if self.decide(t, e) != is_and:
+                return v
+        return last
 
     def ex_UnaryOp(self, e):
         v = self.eval(e.operand)
